@@ -3,6 +3,7 @@ package c13
 import (
 	"fmt"
 	"math"
+	"runtime"
 	"strconv"
 	"strings"
 	"unsafe"
@@ -20,8 +21,13 @@ type Case struct {
 	Front int    `json:"front,omitempty"` // elements of the backing array in front of the slice
 	Kind  string `json:"kind,omitempty"`  // element kind, "" = int
 	Named bool   `json:"named,omitempty"` // slice type is a named type (sl[E]) instead of []E
-	Mode  string `json:"mode,omitempty"`  // "" = plain, "nested" = re-entrant callbacks + kept results
+	Mode  string `json:"mode,omitempty"`  // "" = plain, "nested" = re-entrant callbacks + kept results, "gc", "abort", "repeat", "wrap" (modes_test.go)
 	Size2 int    `json:"size2,omitempty"` // inner size of the nested mode
+	Procs int    `json:"procs,omitempty"` // > 0: runtime.GOMAXPROCS(Procs) for the duration of the case
+	Fn    string `json:"fn,omitempty"`    // "" = all; otherwise a subset of "c" (Chunk, ChunkFunc), "w" (Windowed, WindowedFunc), "p" (Pairs, PairsFunc); wrap mode: capital letter = slice-returning variant
+	At    int    `json:"at,omitempty"`    // gc/abort mode: index (mod number of callbacks) of the callback that collects garbage / aborts
+	Var   int    `json:"var,omitempty"`   // abort mode: 0 = panic, 1 = runtime.Goexit; gc mode: number of same-sized allocations after the collection (0 = default)
+	Reps  int    `json:"reps,omitempty"`  // repeat/wrap mode: number of repetitions
 }
 
 // sl is the named slice type used when Case.Named is set.
@@ -35,6 +41,9 @@ type kind[E any] struct {
 	mk   func(i int) E
 	same func(a, b E) bool
 	show func(E) string // deterministic rendering for messages (nil: positions only)
+	// at: "a is (by value) the element made for position i" - used when the oracle keeps no copy of the input and
+	// recomputes the expected element from the formula; nil = same(a, mk(i)).
+	at func(a E, i int) bool
 }
 
 type (
@@ -47,7 +56,12 @@ type (
 		pad [15]int64
 		id  int64
 	}
-	zPad struct {
+	xwideElem struct { // 1040 bytes, not a power of two
+		pad [129]int64
+		id  int64
+	}
+	b3Elem [3]uint8 // size 3, alignment 1
+	zPad   struct {
 		_ [0]string
 		_ struct{}
 	}
@@ -84,7 +98,13 @@ var (
 		p := new(int)
 		*p = i
 		return p
-	}, same: func(a, b *int) bool { return a == b }}
+	}, same: func(a, b *int) bool { return a == b },
+		at: func(a *int, i int) bool {
+			if i%4 == 2 {
+				return a == nil
+			}
+			return a != nil && *a == i
+		}}
 	kNc = &kind[ncElem]{name: "nc", mk: func(i int) ncElem {
 		e := ncElem{id: i}
 		if i%2 == 1 {
@@ -102,6 +122,15 @@ var (
 		e.pad[0], e.pad[14] = ^int64(i), int64(i)*3
 		return e
 	}, same: func(a, b wideElem) bool { return a == b }, show: func(e wideElem) string { return "#" + strconv.FormatInt(e.id, 10) }}
+	kXWide = &kind[xwideElem]{name: "xwide", mk: func(i int) xwideElem {
+		e := xwideElem{id: int64(i)}
+		e.pad[0], e.pad[64], e.pad[128] = ^int64(i), int64(i)*5, int64(i)*3
+		return e
+	}, same: func(a, b xwideElem) bool { return a == b }, show: func(e xwideElem) string { return "#" + strconv.FormatInt(e.id, 10) }}
+	kB3 = &kind[b3Elem]{name: "b3", mk: func(i int) b3Elem { return b3Elem{uint8(i), uint8(i >> 8), uint8(i>>16) ^ 0x5a} },
+		same: func(a, b b3Elem) bool { return a == b }, show: func(e b3Elem) string { return fmt.Sprintf("%v", [3]uint8(e)) }}
+	kI32 = &kind[int32]{name: "i32", mk: func(i int) int32 { return int32(i) + 1 }, same: func(a, b int32) bool { return a == b },
+		show: func(v int32) string { return strconv.Itoa(int(v)) }}
 	kU8 = &kind[uint8]{name: "u8", mk: func(i int) uint8 { return uint8(i*7 + i/256) }, same: func(a, b uint8) bool { return a == b },
 		show: func(b uint8) string { return strconv.Itoa(int(b)) }}
 	kIface = &kind[any]{name: "iface", mk: func(i int) any {
@@ -129,6 +158,19 @@ var (
 			return ok && len(x) == 1 && len(y) == 1 && &x[0] == &y[0]
 		}
 		return false
+	}, at: func(a any, i int) bool {
+		switch i % 4 {
+		case 1:
+			return a == nil
+		case 2:
+			y, ok := a.(string)
+			return ok && y == "s"+strconv.Itoa(i)
+		case 3:
+			y, ok := a.([]int)
+			return ok && len(y) == 1 && y[0] == i
+		}
+		y, ok := a.(int)
+		return ok && y == i
 	}}
 	kZStruct = &kind[struct{}]{name: "z-struct", zst: true, mk: zero[struct{}], same: always[struct{}]}
 	kZArr0   = &kind[[0]int]{name: "z-arr0", zst: true, mk: zero[[0]int], same: always[[0]int]}
@@ -137,7 +179,7 @@ var (
 	kZArrz   = &kind[zArrz]{name: "z-arrz", zst: true, mk: zero[zArrz], same: always[zArrz]}
 )
 
-var allKinds = []string{"int", "string", "f64", "ptr", "nc", "wide", "u8", "iface", "z-struct", "z-arr0", "z-nc", "z-pad", "z-arrz"}
+var allKinds = []string{"int", "string", "f64", "ptr", "nc", "wide", "xwide", "u8", "b3", "i32", "iface", "z-struct", "z-arr0", "z-nc", "z-pad", "z-arrz"}
 
 func init() {
 	if unsafe.Sizeof(struct{}{})+unsafe.Sizeof([0]int{})+unsafe.Sizeof([0]func(){})+unsafe.Sizeof(zPad{})+unsafe.Sizeof(zArrz{}) != 0 {
@@ -162,6 +204,12 @@ func Run(c Case) pbt.Outcome {
 		return dispatch(c, kWide)
 	case "u8":
 		return dispatch(c, kU8)
+	case "xwide":
+		return dispatch(c, kXWide)
+	case "b3":
+		return dispatch(c, kB3)
+	case "i32":
+		return dispatch(c, kI32)
 	case "iface":
 		return dispatch(c, kIface)
 	case "z-struct":
@@ -187,7 +235,7 @@ func dispatch[E any](c Case, k *kind[E]) pbt.Outcome {
 
 // zstLimit: largest number of pieces of a zero-size type a function is asked to produce (its result
 // container and its loop are proportional to that number although the input itself costs nothing).
-const zstLimit = 1 << 16
+const zstLimit = 1<<20 + 16
 
 // maxRealN bounds the length of slices of real (non-zero-size) elements (replay files are external input).
 const maxRealN = 1 << 22
@@ -224,9 +272,42 @@ func pairCount(n int) int {
 // env is the expected content of one backing array.
 type env[S ~[]E, E any] struct {
 	k     *kind[E]
-	orig  []E // expected element per absolute position (nil for zero-size kinds)
+	orig  []E // expected element per absolute position (nil for zero-size kinds and for formula environments)
+	off   int // formula environments: the element at absolute position i was made as k.mk(i+off)
 	evals int
 	err   string // first violation seen inside callbacks
+}
+
+// formulaEnv keeps no copy of the input: expected elements are recomputed from k.mk (by value, see kind.at).
+func formulaEnv[S ~[]E, E any](k *kind[E], off int) *env[S, E] { return &env[S, E]{k: k, off: off} }
+
+// fill makes the backing array of a formula environment.
+func fill[S ~[]E, E any](k *kind[E], total, off int) S {
+	back := make(S, total)
+	if !k.zst {
+		for i := range back {
+			back[i] = k.mk(i + off)
+		}
+	}
+	return back
+}
+
+// is: a is the element expected at absolute position pos.
+func (e *env[S, E]) is(a E, pos int) bool {
+	if e.orig != nil {
+		return e.k.same(a, e.orig[pos])
+	}
+	if e.k.at != nil {
+		return e.k.at(a, pos+e.off)
+	}
+	return e.k.same(a, e.k.mk(pos+e.off))
+}
+
+func (e *env[S, E]) wantAt(pos int) E {
+	if e.orig != nil {
+		return e.orig[pos]
+	}
+	return e.k.mk(pos + e.off)
 }
 
 func newEnv[S ~[]E, E any](k *kind[E], total, offset int) (*env[S, E], S) {
@@ -258,25 +339,25 @@ func (e *env[S, E]) mismatch(p S, base int, sampled bool) int {
 	L := len(p)
 	if !sampled || L <= 80 {
 		for j := 0; j < L; j++ {
-			if !e.k.same(p[j], e.orig[base+j]) {
+			if !e.is(p[j], base+j) {
 				return j
 			}
 		}
 		return -1
 	}
 	for j := 0; j < 8; j++ {
-		if !e.k.same(p[j], e.orig[base+j]) {
+		if !e.is(p[j], base+j) {
 			return j
 		}
 	}
 	for t := 0; t < 48; t++ {
 		j := 8 + t*(L-16)/48
-		if !e.k.same(p[j], e.orig[base+j]) {
+		if !e.is(p[j], base+j) {
 			return j
 		}
 	}
 	for j := L - 8; j < L; j++ {
-		if !e.k.same(p[j], e.orig[base+j]) {
+		if !e.is(p[j], base+j) {
 			return j
 		}
 	}
@@ -287,7 +368,7 @@ func (e *env[S, E]) elemMsg(got E, pos int) string {
 	if e.k.show == nil {
 		return fmt.Sprintf("is not input element %d", pos)
 	}
-	return fmt.Sprintf("= %s, want %s (input element %d)", e.k.show(got), e.k.show(e.orig[pos]), pos)
+	return fmt.Sprintf("= %s, want %s (input element %d)", e.k.show(got), e.k.show(e.wantAt(pos)), pos)
 }
 
 func lens[S ~[]E, E any](ps []S) string {
@@ -335,6 +416,13 @@ func (e *env[S, E]) checkChunks(name string, base, n, size int, pieces []S) stri
 	if len(pieces) != want {
 		return e.fail("%s(n=%d,size=%d): %d pieces, want ceil(n/size)=%d: %s", name, n, size, len(pieces), want, lens(pieces))
 	}
+	// a first look at the result the moment it is returned, last piece first (a result that is still being
+	// filled in when the function returns is most likely incomplete at its far end), then every piece in order
+	for i := want - 1; i >= 0 && want > prepass; i -= want/64 + 1 {
+		if m := e.piece("piece", i, pieces[i], chunkLen(i, want, n, size), base+i*size, true); m != "" {
+			return e.fail("%s(n=%d,size=%d): right after the call returned: %s: %s", name, n, size, m, lens(pieces))
+		}
+	}
 	for i, p := range pieces {
 		if m := e.piece("piece", i, p, chunkLen(i, want, n, size), base+i*size, false); m != "" {
 			return e.fail("%s(n=%d,size=%d): %s: %s", name, n, size, m, lens(pieces))
@@ -342,6 +430,9 @@ func (e *env[S, E]) checkChunks(name string, base, n, size int, pieces []S) stri
 	}
 	return ""
 }
+
+// prepass: results with more pieces than this get the last-first look before the full check.
+const prepass = 256
 
 // chunkVisitor checks the callback sequence of ChunkFunc at the time of each call.
 func (e *env[S, E]) chunkVisitor(name string, base, n, size int) (cb func(S), done func() string) {
@@ -379,6 +470,11 @@ func (e *env[S, E]) checkWindows(name string, base, n, size int, ws []S) string 
 		return e.fail("%s(n=%d,size=%d): %d windows, want %d: %s", name, n, size, len(ws), want, lens(ws))
 	}
 	sampled := e.sampled(n, size)
+	for i := want - 1; i >= 0 && want > prepass; i -= want/64 + 1 {
+		if m := e.piece("window", i, ws[i], size, base+i, true); m != "" {
+			return e.fail("%s(n=%d,size=%d): right after the call returned: %s", name, n, size, m)
+		}
+	}
 	for i, w := range ws {
 		if m := e.piece("window", i, w, size, base+i, sampled); m != "" {
 			return e.fail("%s(n=%d,size=%d): %s", name, n, size, m)
@@ -415,10 +511,10 @@ func (e *env[S, E]) pair(i int, a, b E, base int) string {
 	if e.k.zst {
 		return ""
 	}
-	if !e.k.same(a, e.orig[base+i]) {
+	if !e.is(a, base+i) {
 		return fmt.Sprintf("pair %d first %s", i, e.elemMsg(a, base+i))
 	}
-	if !e.k.same(b, e.orig[base+i+1]) {
+	if !e.is(b, base+i+1) {
 		return fmt.Sprintf("pair %d second %s", i, e.elemMsg(b, base+i+1))
 	}
 	return ""
@@ -429,6 +525,11 @@ func (e *env[S, E]) checkPairs(name string, base, n int, ps [][2]E) string {
 	want := pairCount(n)
 	if len(ps) != want {
 		return e.fail("%s(n=%d): %d pairs, want %d", name, n, len(ps), want)
+	}
+	for i := want - 1; i >= 0 && want > prepass; i -= want/64 + 1 {
+		if m := e.pair(i, ps[i][0], ps[i][1], base); m != "" {
+			return e.fail("%s(n=%d): right after the call returned: %s", name, n, m)
+		}
 	}
 	for i, p := range ps {
 		if m := e.pair(i, p[0], p[1], base); m != "" {
@@ -467,7 +568,7 @@ func (e *env[S, E]) unchanged(back S) string {
 		return ""
 	}
 	for i := range back {
-		if !e.k.same(back[i], e.orig[i]) {
+		if !e.is(back[i], i) {
 			return e.fail("input modified: backing element %d %s", i, e.elemMsg(back[i], i))
 		}
 	}
@@ -479,9 +580,16 @@ func (e *env[S, E]) feasible(count int) bool { return !e.k.zst || count <= zstLi
 // all six functions on s, which must be the n elements at absolute positions base.. of e; ctx prefixes messages.
 // Returns the first violation and the names of the functions that were skipped as infeasible.
 func (e *env[S, E]) six(ctx string, s S, base, size int) (string, []string) {
+	return e.some("", ctx, s, base, size)
+}
+
+// some: the functions selected by fn ("" = all six; "c", "w", "p" select a function with its Func variant).
+func (e *env[S, E]) some(fn, ctx string, s S, base, size int) (string, []string) {
 	n := len(s)
 	var skipped []string
-	if e.feasible(chunkCount(n, size)) {
+	on := func(letter string) bool { return fn == "" || strings.Contains(fn, letter) }
+	if !on("c") {
+	} else if e.feasible(chunkCount(n, size)) {
 		if m := e.checkChunks(ctx+"Chunk", base, n, size, slices.Chunk(s, size)); m != "" {
 			return m, nil
 		}
@@ -493,7 +601,8 @@ func (e *env[S, E]) six(ctx string, s S, base, size int) (string, []string) {
 	} else {
 		skipped = append(skipped, "skip:chunk")
 	}
-	if e.feasible(windowCount(n, size)) {
+	if !on("w") {
+	} else if e.feasible(windowCount(n, size)) {
 		if m := e.checkWindows(ctx+"Windowed", base, n, size, slices.Windowed(s, size)); m != "" {
 			return m, nil
 		}
@@ -505,7 +614,8 @@ func (e *env[S, E]) six(ctx string, s S, base, size int) (string, []string) {
 	} else {
 		skipped = append(skipped, "skip:windowed")
 	}
-	if e.feasible(pairCount(n)) {
+	if !on("p") {
+	} else if e.feasible(pairCount(n)) {
 		if m := e.checkPairs(ctx+"Pairs", base, n, slices.Pairs(s)); m != "" {
 			return m, nil
 		}
@@ -536,21 +646,29 @@ func sizeClass(prefix string, v int) string {
 	return prefix + ">=2^53"
 }
 
+// procs0 is the GOMAXPROCS value of the process (read-only after initialisation; cases with Procs restore it).
+var procs0 = runtime.GOMAXPROCS(0)
+
+// maxBytes bounds the memory of one backing array (replay files are external input).
+const maxBytes = 1 << 29
+
 func runKind[S ~[]E, E any](c Case, k *kind[E]) pbt.Outcome {
 	n, size, front, spare := c.N, c.Size, c.Front, c.Spare
-	if n < 0 || size < 1 || front < 0 || spare < 0 || front > 1<<20 || spare > 1<<20 || (!k.zst && n > maxRealN) {
+	if n < 0 || size < 1 || front < 0 || spare < 0 || c.Procs < 0 || c.Procs > 256 || c.Reps < 0 {
 		return pbt.Outcome{Skipped: true, Labels: []string{"outside-domain"}}
 	}
-	if n > math.MaxInt-front-spare {
-		front, spare = 0, 0
+	if k.zst {
+		// any length and capacity up to MaxInt costs nothing
+		if front > math.MaxInt-n || spare > math.MaxInt-n-front {
+			front, spare = 0, 0
+		}
+	} else {
+		var z E
+		if n > maxRealN || front > maxRealN || spare > maxRealN || front+n+spare > maxRealN+16 || uintptr(front+n+spare)*unsafe.Sizeof(z) > maxBytes {
+			return pbt.Outcome{Skipped: true, Labels: []string{"outside-domain"}}
+		}
 	}
-	e, back := newEnv[S](k, front+n+spare, 0)
-	s := back[front : front+n]
 	var out pbt.Outcome
-	if n == 0 && front+spare == 0 {
-		s = nil
-		out.Labels = append(out.Labels, "nil-slice")
-	}
 	if n >= 1 && (n%size >= 2 || size > n) {
 		out.NonTrivial = true
 	}
@@ -568,17 +686,65 @@ func runKind[S ~[]E, E any](c Case, k *kind[E]) pbt.Outcome {
 	if c.Named {
 		out.Labels = append(out.Labels, "named-slice-type")
 	}
+	if !k.zst {
+		var z E
+		if unused := uintptr(front+spare) * unsafe.Sizeof(z); unused > 1<<20 {
+			out.Labels = append(out.Labels, "unused-capacity>1MiB")
+		}
+	} else if front+spare > 1<<20 {
+		out.Labels = append(out.Labels, "unused-capacity"+sizeClass("", front+spare))
+	}
+	if c.Procs > 0 {
+		runtime.GOMAXPROCS(c.Procs)
+		defer runtime.GOMAXPROCS(procs0)
+		out.Labels = append(out.Labels, "gomaxprocs="+strconv.Itoa(c.Procs))
+	}
+	finish := func(m string, evals int) pbt.Outcome {
+		out.Evals = evals
+		if m != "" {
+			return pbt.Outcome{Violation: fmt.Sprintf("[%s elements, front=%d spare=%d named=%v] %s", k.name, front, spare, c.Named, m), Labels: out.Labels, Evals: evals}
+		}
+		return out
+	}
+	switch c.Mode {
+	case "gc":
+		return finish(runGC[S](k, c, front, spare, &out))
+	case "wrap":
+		return finish(runWrap[S](k, c, &out))
+	}
+
+	var e *env[S, E]
+	var back S
+	if !k.zst && front+spare > 1<<12 {
+		// big unused parts: no second copy of the array, expected elements are recomputed
+		e, back = formulaEnv[S](k, 0), fill[S](k, front+n+spare, 0)
+	} else {
+		e, back = newEnv[S](k, front+n+spare, 0)
+	}
+	s := back[front : front+n]
+	if n == 0 && front+spare == 0 {
+		s = nil
+		out.Labels = append(out.Labels, "nil-slice")
+	}
 
 	var m string
-	if c.Mode == "nested" {
+	switch c.Mode {
+	case "nested":
 		m = runNested(e, s, front, c)
-	} else {
+	case "abort":
+		m = runAbort(e, s, front, c, &out)
+	case "repeat":
+		m = runRepeat(e, s, front, c, &out)
+	default:
 		var skipped []string
-		m, skipped = e.six("", s, front, size)
+		m, skipped = e.some(c.Fn, "", s, front, size)
+		if c.Fn != "" {
+			out.Labels = append(out.Labels, "only:"+c.Fn)
+		}
 		if len(skipped) > 0 {
 			out.Labels = append(out.Labels, skipped...)
-			out.Skipped = len(skipped) == 3
-			if len(skipped) == 3 {
+			if all := len(c.Fn) == len(skipped) || len(skipped) == 3; all {
+				out.Skipped = true
 				out.NonTrivial = false
 			}
 		}
@@ -592,11 +758,7 @@ func runKind[S ~[]E, E any](c Case, k *kind[E]) pbt.Outcome {
 	if m == "" && len(s) != n {
 		m = "harness: slice length changed"
 	}
-	out.Evals = e.evals
-	if m != "" {
-		return pbt.Outcome{Violation: fmt.Sprintf("[%s elements, front=%d spare=%d named=%v] %s", k.name, front, spare, c.Named, m), Labels: out.Labels, Evals: e.evals}
-	}
-	return out
+	return finish(m, e.evals)
 }
 
 // runNested: the callbacks call the functions again; results of earlier calls are checked after later calls.
@@ -608,15 +770,24 @@ func runNested[S ~[]E, E any](e *env[S, E], s S, base int, c Case) string {
 	if n > 4096 {
 		return "" // quadratic mode: small inputs only
 	}
+	// a second, independent live slice that is used alternately with the first one
+	e3, back3 := newEnv[S](e.k, n+size2+2, 1000)
+	t3 := back3[1 : n+size2]
 	inner := func(ctx string, piece S, pbase int) {
-		if e.err != "" {
+		if e.err != "" || e3.err != "" {
 			return
 		}
 		if m, _ := e.six(ctx, piece, pbase, size2); m != "" {
 			return
 		}
 		// and the whole input again, with the outer size, while the outer call is in progress
-		e.six(ctx+"whole input: ", s, base, size)
+		if m, _ := e.six(ctx+"whole input: ", s, base, size); m != "" {
+			return
+		}
+		// and an independent slice
+		if m, _ := e3.six(ctx+"independent second slice: ", t3, 1, size2); m != "" {
+			e.fail("%s", m)
+		}
 	}
 
 	{
@@ -706,6 +877,10 @@ func runNested[S ~[]E, E any](e *env[S, E], s S, base int, c Case) string {
 	}
 	if m, _ := e.six("after the caller overwrote earlier results: ", s, base, size); m != "" {
 		return m
+	}
+	e.evals += e3.evals
+	if m := e3.unchanged(back3); m != "" {
+		return "independent second slice: " + m
 	}
 	return e2.unchanged(back2)
 }
